@@ -9,24 +9,34 @@ import RsMatterVerif.Model.Codec.Buf
 -/
 namespace Codec
 
-/-- "the Rust code does not panic here": the model's answer is a value or a proper `ErrorCode` -/
-def NoPanic {α : Type} (r : Except Err α) : Prop := r ≠ .error .panic
+/-- "the Rust code does not panic here": the model's answer is a value or a proper `ErrorCode`
+(stated by cases so that tactics do not unfold it into an implication) -/
+def NoPanic {α : Type} (r : Except Err α) : Prop :=
+  match r with
+  | .error .panic => False
+  | _ => True
+
+theorem noPanic_iff {α : Type} (r : Except Err α) : NoPanic r ↔ r ≠ .error .panic := by
+  unfold NoPanic
+  split <;> simp_all
 
 namespace NoPanic
 variable {α β : Type}
 theorem ok (a : α) : NoPanic (.ok a : Except Err α) := by simp [NoPanic]
 theorem pure (a : α) : NoPanic (Pure.pure a : Except Err α) := by simp [NoPanic, Pure.pure, Except.pure]
-theorem err {e : Err} (h : e ≠ .panic) : NoPanic (.error e : Except Err α) := by simp [NoPanic, h]
+theorem err {e : Err} (h : e ≠ .panic) : NoPanic (.error e : Except Err α) := by
+  rw [noPanic_iff]; simp [h]
 theorem bind {x : Except Err α} {f : α → Except Err β} (hx : NoPanic x) (hf : ∀ a, NoPanic (f a)) :
     NoPanic (x >>= f) := by
   cases x with
-  | error e => simp [NoPanic, Bind.bind, Except.bind] at hx ⊢; exact hx
+  | error e => rw [noPanic_iff] at hx ⊢; simp [Bind.bind, Except.bind] at hx ⊢; exact hx
   | ok a => exact hf a
 theorem ite {c : Prop} [Decidable c] {a b : Except Err α} (ha : NoPanic a) (hb : NoPanic b) :
     NoPanic (if c then a else b) := by split <;> assumption
 end NoPanic
 
-/-- structural proof search for `NoPanic` goals over do-blocks -/
+/-- structural proof search for `NoPanic` goals over do-blocks; facts about the primitives used by
+the block are taken from the local context (`have := prim_np`) -/
 macro "no_panic" : tactic => `(tactic| repeat' (first
   | assumption
   | apply NoPanic.ok
@@ -34,6 +44,7 @@ macro "no_panic" : tactic => `(tactic| repeat' (first
   | exact NoPanic.err (by decide)
   | apply NoPanic.bind
   | apply NoPanic.ite
+  | apply_assumption
   | intro _
   | split))
 
